@@ -256,6 +256,14 @@ type nilPre struct {
 
 // C17 — totality.
 func checkC17(p *Prog, r *Report) {
+	// each keeper reads only what it wrote: a store shared by two modules makes each decode the other's entries with its own
+	// Must* decoder (a crafted query or an export then panics)
+	{
+		w17 := BuildWire(p)
+		wireKeyOwnership(p, r, w17, "C17", "aol", []string{"x/aol/keeper.NewKeeper"}, "AOL data")
+		wireKeyOwnership(p, r, w17, "C17", "did", []string{"x/did/keeper.NewKeeper"}, "DID documents")
+		wireKeyOwnership(p, r, w17, "C17", "pnft", []string{"x/pnft/keeper.NewKeeper"}, "denoms and tokens")
+	}
 	r.Explain = "Decided statically, over every hand-written module function reachable (definite edges) from the entry points an outsider controls — ValidateBasic/GetSigners/GetSignBytes of the 14 messages, the 14 message and 12 query handlers, KeyStore.Load/LoadByAddress/Save, the four modules' Begin/EndBlock and the hand-written proto/JSON codec callbacks of x/did/types: every panic site has a discharged obligation. P-explicit: explicit panics in GetSigners are unreachable for any message that passed the same type's ValidateBasic (accept ∧ panic-path-condition is unsatisfiable); calls to functions that may panic (Must*) need their precondition at the call site — compkey.MustEncode: every string component is a message field bounded <=255 by validation, or the call is dominated by a successful compkey.Encode of the same key; remaining Must* sites are discharged by a reasoned table (marshal of generated structs, unmarshal of what the same codec wrote). P-nil: every dereference of a pointer loaded from a nillable wire field or returned by a generated getter is dominated by a non-nil fact, directly, through an expanded predicate, or as a precondition discharged at every call site (depth 2). P-bounds: constant indexes need a dominating length fact, loop indexes the loop bound; P-lib: cipher.NewCTR needs len(iv) == block size, slices of pbkdf2.Key's result need the key length bound, constant regex patterns must compile. P-lib also covers: math.Int/Uint narrowing (needs IsInt64/IsUint64), big-integer and machine-integer division (non-zero divisor fact or constant), []byte→crypto key type conversions (pinned length or constant-length buffer). Thorough tier: the compiler's unproven bounds checks in scope must all be enumerated sites."
 	r.NotDec = []string{"panics inside the SDK/IAVL/protobuf on well-formed calls", "resource exhaustion (huge kdf parameters)", "gas-limit panics (converted to errors by baseapp)", "nil elements in repeated fields (gogoproto Unmarshal never produces them)"}
 	r.Trusted = []string{"cosmos-sdk v0.47.12", "gogoproto generated Unmarshal", "go/ssa"}
@@ -940,6 +948,36 @@ func checkC17(p *Prog, r *Report) {
 	r.Floor("P-explicit-must-call-sites", nMust, 10)
 	r.Floor("P-nil-sites", nNil, 5)
 	r.Floor("P-bounds-sites", nBounds, 3)
+	// P-lib: the SDK's stores panic on a nil or empty key ("key is nil"). A key that went through a function that can return an empty
+	// slice for non-empty input (bytes.TrimSpace / Trim*, a sub-slice bounded by a computed index) needs a dominating non-emptiness test.
+	{
+		inScope := map[*ssa.Function]bool{}
+		for _, f := range scope {
+			inScope[f] = true
+		}
+		nKeys := 0
+		for _, so := range p.StoreOps() {
+			if !inScope[so.Fn] || so.Key == nil || so.Op == "Iterator" || so.Op == "ReverseIterator" {
+				continue
+			}
+			nKeys++
+			shrinking := shrinkingCallIn(p, so.Key, 0)
+			if shrinking == "" {
+				continue
+			}
+			in, isI := so.Instr.(ssa.Instruction)
+			if !isI {
+				continue
+			}
+			so2 := NewOrigin(p, so.Fn)
+			sfa := NewFacts(p, so.Fn, so2)
+			kt := so.Key
+			okLen, wit := lenFactAtLeast(sfa, in, kt, 1)
+			r.Check(okLen, kp("PANIC", "P-lib:"+FuncName(so.Fn)+"→store."+so.Op+"#key-non-empty"), "a store key that went through a trimming function is tested for emptiness before it reaches the store (the store panics on a nil key)", p.Pos(so.Instr.Pos()),
+				"dominated by "+wit, fmt.Sprintf("%s hands the store a key that went through %s, which returns an empty (nil) slice for an all-blank input: %s on the prefix store panics with 'key is nil'", FuncName(so.Fn), shrinking, so.Op))
+		}
+		r.Count("store-keys-in-scope", nKeys)
+	}
 	r.Floor("P-lib-sites", nLib, 2)
 	r.Count("P-lib-narrowing-sites", nNarrow)
 	r.Count("P-lib-division-sites", nDiv)
@@ -1560,4 +1598,34 @@ func nonNegativeInt(v ssa.Value, depth int) bool {
 		return len(x.Edges) > 0
 	}
 	return false
+}
+
+// shrinkingCallIn: the term goes through a function that can return an empty slice/string for a non-empty input (Trim*, Fields),
+// directly or inside a module function it calls (its returned values are examined, two levels deep).
+func shrinkingCallIn(p *Prog, t *Term, depth int) string {
+	found := ""
+	t.Walk(func(x *Term) {
+		if found != "" || x.Op != "call" {
+			return
+		}
+		if strings.HasPrefix(x.Name, "bytes.Trim") || strings.HasPrefix(x.Name, "strings.Trim") || x.Name == "bytes.Fields" || x.Name == "strings.Fields" {
+			found = x.Name
+			return
+		}
+		if depth < 2 {
+			if c, ok := x.Val.(*ssa.Call); ok {
+				if g := c.Call.StaticCallee(); g != nil && InModule(g) && g.Blocks != nil && !p.IsGenerated(g) {
+					go2 := NewOrigin(p, g)
+					for _, ret := range returnsOf(g) {
+						for _, rv := range ret.Results {
+							if f := shrinkingCallIn(p, go2.Of(rv), depth+1); f != "" {
+								found = f + " (in " + FuncName(g) + ")"
+							}
+						}
+					}
+				}
+			}
+		}
+	})
+	return found
 }
